@@ -15,7 +15,7 @@
                                                                                           C09_ext_from_mnemonic_sticks *)
 From Coq Require Import ZArith List Bool.
 Require Import Bits.Lib.Result Bits.Lib.Bytes Bits.Model.Ecmath Bits.Proofs.Ecmath Bits.Proofs.Ecdsa Bits.Proofs.Sec1
-  Bits.Model.Bip32 Bits.Model.Bip39 Bits.Proofs.Bip32Ser Bits.Proofs.Bip32Path Bits.Model.Hd Bits.Proofs.Hd.
+  Bits.Model.Bip32 Bits.Model.Bip39 Bits.Proofs.Bip32Ser Bits.Proofs.Bip32Text Bits.Proofs.Bip32Path Bits.Model.Hd Bits.Proofs.Hd.
 Require Bits.Spec.Bip32 Bits.Spec.Secp256k1.
 Import ListNotations.
 Import Coq.Init.Byte.
@@ -42,6 +42,24 @@ Theorem C09_ext_derive_child_body_is_step :
               <-> derive_step p a b n G hmac sha256 ripemd160 (is_public_version v) false xkey i = Ok y.
 Proof. exact derive_child_body_is_step. Qed.
 Print Assumptions C09_ext_derive_child_body_is_step.
+
+(* the same as a statement about the public function: derive_child(xkey, i) [body] = derive_from_path("m/<i>", xkey) for
+   a private parent, derive_from_path("M/<i>", xkey) for a public parent (i written in decimal, with ' from 2^31 on) *)
+Theorem C09_ext_derive_child_body_is_path :
+  forall p a b n G, sqrt_facts p -> inF p a = true -> inF p b = true -> p <= 2 ^ 256 ->
+  forall (hmac : bytes -> bytes -> bytes) (sha256 ripemd160 : bytes -> bytes),
+  forall xkey i v d fp ch cc key,
+    deserialized_extended_key p a b n sha256 xkey = Ok (v, d, fp, ch, cc, key) ->
+    is_testnet_version v = false ->
+    starts_with txt_xprv xkey = is_private_version v ->
+    starts_with txt_xpub xkey = is_public_version v ->
+    0 <= i < 2 ^ 32 ->
+    forall y, derive_child_body p a b n G hmac sha256 ripemd160 xkey i = Ok y
+              <-> derive_from_path p a b n G hmac sha256 ripemd160
+                    (Bits.Proofs.Bip32Text.join (Bits.Proofs.Bip32Text.pfx (is_public_version v)) [Bits.Proofs.Bip32Text.render i])
+                    xkey = Ok y.
+Proof. exact derive_child_body_is_path. Qed.
+Print Assumptions C09_ext_derive_child_body_is_path.
 
 (* get_root_keys: the BIP's serialisation of the master key and of its neutered key; get_xpub maps one to the other *)
 Theorem C09_ext_get_root_keys :
